@@ -23,7 +23,7 @@ TECH = "contract-based deductive verification: symbolic execution of the real AS
 
 PROPS = {
     "C13": dict(
-        contracts=["c13"], bounded=True, level="proof",
+        contracts=["c13", "c12"], bounded=True, level="proof",
         explanation="fold-form (inductive) proof of Output.group_by_type_result against the filter/flatmap specification, unbounded in the number of entities",
         level_text="Output.group_by_type_result is proved, for flat lists of any length, to produce in every bucket exactly the order-preserving filter of the flat list by kind, "
                    "the concatenated comment texts, the six base buckets always and tablespaces/databases only when non-empty (loop base, inductive step with a generic entity, exit)",
@@ -56,7 +56,7 @@ PROPS = {
         technique=TECH,
     ),
     "C14": dict(
-        frames=["init-before-use", "class-level-state", "file-path-only-under-dump"], bounded=True, level="proof",
+        contracts=["c12"], frames=["init-before-use", "class-level-state", "file-path-only-under-dump", "global-purity", "ordered-iteration"], bounded=True, level="proof",
         explanation="frame obligations over the real ASTs: every instance attribute written on the run() path is definitely assigned before use in each run (must-analysis with per-method summaries, "
                     "PLY callbacks = any t_*/p_* method), no class-level mutable state is mutated through instances, file-system calls only under `if dump`",
         level_text="static frame / definite-assignment obligations over the real source: no parser state is carried from one run() to the next, no class-level mutable state, no file access unless dump is requested",
@@ -72,7 +72,7 @@ PROPS = {
         technique="contract-based deductive verification: frame / global-purity obligations decided by static analysis of the real ASTs",
     ),
     "C16": dict(
-        contracts=["c16"], frames=["silent-only-in-p_error"], bounded=True, level="proof",
+        contracts=["c16"], frames=["silent-only-in-p_error", "lexer-reset-complete"], bounded=True, level="proof",
         explanation="p_error raises DDLParserError iff not silent; t_error always raises the library's exception; run() raises SimpleDDLParserException for every unknown mode; "
                     "frame: `silent` is read only in p_error and in the exception handler of parse_statement, so both settings execute identical paths on input that does not reach an error callback",
         level_text="error callbacks proved against their contracts for all tokens and lexer contexts; frame obligation shows the silent flag cannot influence anything but error reporting",
@@ -125,7 +125,7 @@ PROPS.update({
         technique=BTECH,
     ),
     "C09": dict(
-        contracts=["c09"], bounded=True, level="proof",
+        contracts=["c09"], frames=["lexer-reset-complete"], bounded=True, level="proof",
         explanation="bracket counter (lt_open' = lt_open + #'<' - #'>'), LT / RT typing, inner-comma typing, type text assembly (p_tid), the five size forms (get_size, p_column) proved for all token texts; "
                     "bounded run-level contract over the recursive type grammar as cross-check of alternative selection",
         level_text="the nesting counter, bracket token typing, inner-comma typing, in-order assembly of the type text and the size forms (n), (p,s), (max), (n CHAR), (*,s) are proved for all values at function level",
